@@ -973,6 +973,19 @@ func (r *Runner) runQueries() {
 		want := r.qExpect(s, q)
 		g := r.qGRPC(q)
 		l := r.qLegacy(q)
+		// For a single request context, request or response the module's own encoding of
+		// "no such record" is an EMPTY record with a nil error: the clients test .Empty() and
+		// fall back to a transaction search (client/utils/query.go). It is therefore read as
+		// not-found, exactly like an explicit not-found error would be; an empty answer for a
+		// record that EXISTS is still reported (status nf, want ok).
+		if q.Kind == "ctx" || q.Kind == "req" || q.Kind == "resp" {
+			if g.St == "zero" {
+				g = qAns{St: "nf"}
+			}
+			if l.St == "zero" {
+				l = qAns{St: "nf"}
+			}
+		}
 		r.qLines = append(r.qLines, head)
 		r.qGroup = append(r.qGroup, "g "+head+" = "+g.text(), "l "+head+" = "+l.text())
 		askable := r.legacyAskable(q)
